@@ -889,6 +889,12 @@ class ExprMixin:
         if k == "elem" or (k == "sub" and base.args[0].kind == "elem"):
             return Val("sub", base, idx), preds
         ca = cattr_origin(base)
+        if ca is not None and base.kind == "cattr" and idx.kind == "const" and ca.args[0].kind == "cls":
+            # a def-time table of classes (the registry): read its bucket
+            owner_, dv = self.model.lookup(ca.args[0].args[0][0], ca.args[1])
+            if isinstance(dv, dict) and idx.args[0] in dv and isinstance(dv[idx.args[0]], list) and dv[idx.args[0]] and all(isinstance(x, ClassInfo) for x in dv[idx.args[0]]):
+                o = self.node("cs_read", preds, name=ca.args[1], op="getitem", cls=ca.args[0], target=base, index=idx)
+                return Val("tuple", *[Val("classref", x) for x in dv[idx.args[0]]]), o
         if ca is not None:
             name = ca.args[1]
             if name in self.lock_tables() and base.kind == "cattr":
@@ -976,6 +982,8 @@ class ExprMixin:
         return self.node("attr_store", preds, base=base, name=name, value=rhs, op="aug")
 
     def assign(self, t, v, preds):
+        if v.kind == "elem" and v.args[0].kind == "tuple" and v.args[0].args:
+            v = self.merge_vals(list(v.args[0].args))
         if isinstance(t, ast.Name):
             self.fr.env[t.id] = v
             return preds
